@@ -12,7 +12,21 @@ from .arrays import NArr, SymArr, SymList, ndarray, ReshapedSlice, SymRange
 from .loops import GenList
 
 
+def _dt(dtype):
+    """dtype arguments written in repository modules are the shadow classes"""
+    if dtype is None:
+        return None
+    if dtype == float:
+        return float
+    if dtype == int:
+        return int
+    if dtype == bool:
+        return int
+    return dtype
+
+
 def _array(v, dtype=None):
+    dtype = _dt(dtype)
     if isinstance(v, ReshapedSlice):
         v = v.to_array()
     if isinstance(v, SymArr):
@@ -28,6 +42,8 @@ def _array(v, dtype=None):
         return NArr(v.items, dtype if dtype is not None else v.dtype)
     if isinstance(v, (list, tuple)):
         items = list(v)
+        if dtype is None and not items:
+            return NArr([], float)          # numpy: empty array is float64
         if dtype is None:
             # numpy infers: all numbers -> float/int array ; otherwise object array
             from ..core.proxies import _num
@@ -59,6 +75,7 @@ def _genlist_to_array(v, dtype):
 
 
 def _zeros(n, dtype=float):
+    dtype = _dt(dtype)
     if isinstance(n, SInt):
         zero = z3.RealVal(0) if dtype is float else z3.IntVal(0)
         return SymArr(n.z, z3.K(z3.IntSort(), zero), "real" if dtype is float else "int")
@@ -71,7 +88,7 @@ def _concatenate(parts):
         items = []
         for p in parts:
             items.extend(p.items)
-        dt = float if any(p.dtype is float for p in parts if len(p.items)) else \
+        dt = float if any(p.dtype is float for p in parts) else \
             (parts[0].dtype if parts else float)
         return NArr(items, dt)
     # symbolic: piecewise array
